@@ -57,6 +57,11 @@ CHECKS = {
             "Generated managers (1..12 sources of kinds pulse / rising / falling / level; 8- and 32-bit CSR bus so that sources span words; 1..3 managers under SharedIRQ), per-cycle trigger waveforms and programs of complete accessor writes to pending/enable and reads of all three registers. Model: irq = OR(pending & enable) each cycle, set has priority over clear, clear only for written ones, level mirrors, status raw. Compared in every cycle (pending, status, enable, irq, shared irq) and on every bus read. Exhaustive: every kind x bus width x all (trigger start, clear-write cycle, pulse width) alignments in [2,10) x [1,12) x {1,2,3}.",
             "Trusted: Migen's simulator; CSR bank semantics (C12). Multi-word pending writes use the full accessor sequence (documented r/re semantics).",
             "DESIGN.md section 4 / C15"),
+    "C16": ("exploration",
+            "property-based testing (Hypothesis): independent byte-layout serialisation, round-trip, whole-packet/causality and atomicity oracles over generated headers, widths, packets and schedules",
+            "Generated header definitions (1..6 fields, widths 1..64, byte/offset placement, lengths aligned or not to the data width, byte swapping), data widths 8..128, 1..6 back-to-back packets of 1..12 beats, generated valid/ready schedules and garbage on idle sinks. Packetizer alone against an independent serialisation (low byte first, last placement), Depacketizer alone against reference byte streams, Packetizer->(FIFO)->Depacketizer round trip of header fields, payload and last; PacketFIFO: whole packets in order with their own params, released only after the last beat was written; packet.Arbiter/Dispatcher (1..4 ports, binary/one-hot, selector changing every cycle): no interleaving, destination fixed at the first beat, every packet exactly once.",
+            "Trusted: Migen's simulator and reverse_bytes, harness agents. Header params constant over a packet; packets fit the FIFO. Known findings excluded by construction and replayed: header shorter than a data word; swapped fields wider than 8 bits with width % 8 != 0.",
+            "DESIGN.md section 4 / C16"),
 }
 
 NOT_YET = {}
